@@ -95,9 +95,10 @@ Proof.
     apply no_prefix_gt; [exact Hp|]. apply lex_not_le_lt. intros Hle. apply Hn. split; [discriminate|exact Hle].
 Qed.
 
-Lemma decode_range_clip c s e : ~ short_start c s -> clip_spec c s e (decode_range c s e).
+Lemma decode_range_gen_clip fixed c s e : (fixed = true \/ ~ short_start c s) ->
+  clip_spec c s e (decode_range_gen fixed c s e).
 Proof.
-  intros Hns. unfold decode_range.
+  intros Hns. unfold decode_range_gen.
   destruct (lex_leb (end_key c) s) eqn:H1; cbn [orb].
   - (* start at or above the end key *)
     intros k [Hl _]. apply lex_leb_le in H1.
@@ -110,11 +111,23 @@ Proof.
       pose proof (lex_lt_le_trans _ _ _ Hu Hle) as T. exact (lex_lt_not_le _ _ T (prefix_le_enc c k)).
     + assert (Hn : ~ (e <> [] /\ lex_le e (prefix c))).
       { intros [A B]. apply nilb_false in A. apply lex_leb_le in B. rewrite A, B in H2. discriminate. }
-      intros k. unfold in_range. rewrite (lower_bound_clip c s k Hns H1), (upper_bound_clip c e k Hn). tauto.
+      destruct (fixed && negb (has_prefix (prefix c) s) && lex_ltb (prefix c) s) eqn:H3.
+      * (* start above every key of the keyspace *)
+        apply andb_true_iff in H3 as [H3 Hl]. apply andb_true_iff in H3 as [_ Hp].
+        apply negb_true_iff in Hp. apply lex_ltb_lt in Hl.
+        intros k [Hk _]. exact (lex_lt_not_le _ _ (no_prefix_gt _ _ k Hp Hl) Hk).
+      * assert (Hns' : ~ short_start c s).
+        { destruct Hns as [->|Hns]; [|exact Hns]. intros (Hp & Hl & _).
+          apply lex_ltb_lt in Hl. rewrite Hp, Hl in H3. discriminate. }
+        intros k. unfold in_range. rewrite (lower_bound_clip c s k Hns' H1), (upper_bound_clip c e k Hn). tauto.
 Qed.
 
-(* without the side condition the statement is false: keyspace 255 (raw), region [72 00 01, 72 00 01 00 05) *)
-Lemma decode_range_clip_refuted : ~ (forall c s e, ks_ok c -> clip_spec c s e (decode_range c s e)).
+Lemma decode_range_clip c s e : clip_spec c s e (decode_range c s e).
+Proof. apply decode_range_gen_clip. left; reflexivity. Qed.
+
+(* regression witness: the formula before the repair is wrong for keyspace 255 (raw) and the region
+   [72 00 01, 72 00 01 00 05), which lies above the whole keyspace but decoded to the whole keyspace *)
+Lemma decode_range_prefix_refuted : ~ (forall c s e, ks_ok c -> clip_spec c s e (decode_range_gen false c s e)).
 Proof.
   intros H. specialize (H (mkks Raw 255) [114;0;1] [114;0;1;0;5]).
   assert (Hok : ks_ok (mkks Raw 255)) by (unfold ks_ok; cbn; reflexivity).
@@ -144,8 +157,8 @@ Qed.
 Lemma decode_region_range_enc c s e : decode_region_range c (mem_enc s) (mem_enc e) = decode_range c s e.
 Proof. unfold decode_region_range. rewrite !mem_decode_enc. reflexivity. Qed.
 
-Lemma region_clip c s e : ~ short_start c s -> clip_spec c s e (decode_region_range c (mem_enc s) (mem_enc e)).
-Proof. intros H. rewrite decode_region_range_enc. apply decode_range_clip; exact H. Qed.
+Lemma region_clip c s e : clip_spec c s e (decode_region_range c (mem_enc s) (mem_enc e)).
+Proof. rewrite decode_region_range_enc. apply decode_range_clip. Qed.
 
 (* anything DecodeRegionRange accepts is made of canonical memcomparable strings (or empty bounds) *)
 Lemma mem_decode_opt_strict b k : mem_decode_opt b = Some k -> b <> [] -> exists r, b = encode_bytes k ++ r.
@@ -191,9 +204,10 @@ Proof.
   assert (B : mem_decode_opt (encode_bytes (enc_end c e)) = Some (enc_end c e)).
   { unfold mem_decode_opt. rewrite encode_bytes_ne by (apply nilb_false, enc_end_ne).
     unfold mem_decode. rewrite <- (app_nil_r (encode_bytes _)), decode_encode_bytes. reflexivity. }
-  unfold decode_region_range. rewrite A, B. unfold decode_range.
+  unfold decode_region_range. rewrite A, B. unfold decode_range, decode_range_gen.
   replace (lex_leb (end_key c) (encode_key c s)) with false
     by (symmetry; apply lex_leb_false, enc_lt_end).
+  replace (has_prefix (prefix c) (encode_key c s)) with true by (symmetry; apply has_prefix_app).
   cbn [orb]. rewrite enc_end_ne. cbn [negb andb].
   unfold enc_end. destruct (nilb e) eqn:Ne.
   - apply nilb_true in Ne; subst e.
